@@ -444,6 +444,18 @@ def r40(ctx: Ctx) -> RuleReport:
         for a in apps:
             if (call_src, False) in facts_ex(ctx, fi, a) and tv and norm(a.func.value).endswith(f'[{tv}]'):
                 good = True
+        # a local reporter  def report(context, message): ...; err[context].append(message)
+        reporters = set()
+        for f_ in ctx.repo.all_functions():
+            if f_.parent is fi and len(f_.positional) == 2:
+                k_, m_ = f_.positional
+                if any(isinstance(x, ast.Call) and isinstance(x.func, ast.Attribute) and x.func.attr == 'append' and len(x.args) == 1 and norm(x.args[0]) == m_
+                       and isinstance(x.func.value, ast.Subscript) and norm(x.func.value.slice) == k_ for x in walk_local(f_.node)):
+                    reporters.add(f_.name)
+        for a in [n for n in ast.walk(loop) if isinstance(n, ast.Call) and isinstance(n.func, ast.Name) and n.func.id in reporters and len(n.args) == 2
+                  and try_fold(n.args[1]) == (True, 'invalid role')]:
+            if (call_src, False) in facts_ex(ctx, fi, a) and tv and norm(a.args[0]) == tv:
+                good = True
         rep.add(f'{fi.fq}: "invalid role" is recorded for the triple exactly when has_role fails', fi.loc(loop), 'ok' if good else 'undecided')
     else:
         rep.undecided(f'{fi.fq}: one role test per triple', fi.loc(loop), f'{len(tests)} has_role conditions in the loop')
@@ -492,6 +504,13 @@ def r40(ctx: Ctx) -> RuleReport:
     for f in reach:
         apps2 += [n for n in walk_local(f.node) if isinstance(n, ast.Call) and isinstance(n.func, ast.Attribute)
                   and n.func.attr == 'append' and n.args and try_fold(n.args[0]) == (True, 'unreachable')]
+    if not apps2:
+        # through the local reporter: report(triple, 'unreachable')
+        for f in reach:
+            apps2 += [n for n in walk_local(f.node) if isinstance(n, ast.Call) and isinstance(n.func, ast.Name) and len(n.args) == 2
+                      and try_fold(n.args[1]) == (True, 'unreachable') and any(g_.parent is fi and g_.name == n.func.id and any(
+                          isinstance(x, ast.Call) and isinstance(x.func, ast.Attribute) and x.func.attr == 'append' and len(x.args) == 1 and norm(x.args[0]) == g_.positional[1]
+                          for x in walk_local(g_.node)) for g_ in ctx.repo.all_functions() if len(g_.positional) == 2)]
     rep.add(f'{fi.fq}: "unreachable" is recorded per triple', fi.loc(), 'ok' if apps2 else 'undecided')
     # adjacency: only targets that are variables of the graph become neighbours
     found, unrestricted = [], []
@@ -905,6 +924,97 @@ def _r24m_inline(ctx: Ctx, rep: RuleReport, fi: FuncInfo, rets) -> RuleReport:
     return _r24m_rest(ctx, rep, fi, loops[0])
 
 
+def _r24m_rounds(ctx: Ctx, rep: RuleReport, ci: FuncInfo, scope) -> None:
+    """Symbolic unrolling of the inversion loop with invert_role as an uninterpreted function I: the test that decides whether another round is
+    made must depend on the data in every round.  If, in the second round, it compares two identical terms, the loop provably makes one round
+    only - a single pair of -of is removed however many the role has."""
+    loops = [n for n in ([scope] if isinstance(scope, ast.While) else ast.walk(scope)) if isinstance(n, ast.While)]
+    if len(loops) != 1:
+        return
+    loop = loops[0]
+    pm = ctx.repo.parent_map(ci.node)
+    blk = getattr(pm.get(id(loop)), 'body', None)
+    if not isinstance(blk, list) or loop not in blk:
+        return
+    env: Dict[str, object] = {}
+
+    class Unsup(Exception):
+        pass
+
+    def term(e):
+        if isinstance(e, ast.Name):
+            return env.get(e.id, ('sym', e.id))
+        if isinstance(e, ast.Call) and len(e.args) == 1 and not e.keywords and norm(single_def(ctx, ci, e.func)).endswith('invert_role'):
+            return ('I', term(e.args[0]))
+        if isinstance(e, ast.Constant):
+            return ('const', e.value)
+        raise Unsup(norm(e)[:40])
+
+    def truth(e):
+        """True / False when decided by the shape of the terms, None when it depends on the data"""
+        if isinstance(e, ast.Constant):
+            return bool(e.value)
+        if isinstance(e, ast.UnaryOp) and isinstance(e.op, ast.Not):
+            t = truth(e.operand)
+            return None if t is None else not t
+        if isinstance(e, ast.Compare) and len(e.ops) == 1 and isinstance(e.ops[0], (ast.Eq, ast.NotEq)):
+            a, b = term(e.left), term(e.comparators[0])
+            if a == b:
+                return isinstance(e.ops[0], ast.Eq)
+            return None
+        raise Unsup(norm(e)[:40])
+
+    def assign(st):
+        if isinstance(st, ast.Assign) and len(st.targets) == 1 and isinstance(st.targets[0], ast.Name):
+            if isinstance(st.value, (ast.Attribute,)):
+                return                       # invert = self.invert_role
+            env[st.targets[0].id] = term(st.value)
+        elif isinstance(st, ast.Assign) and len(st.targets) == 1 and isinstance(st.targets[0], ast.Tuple) and isinstance(st.value, ast.Tuple) \
+                and len(st.targets[0].elts) == len(st.value.elts) and all(isinstance(t, ast.Name) for t in st.targets[0].elts):
+            vals = [term(v) for v in st.value.elts]              # all right-hand sides are evaluated before any name is bound
+            for t, v in zip(st.targets[0].elts, vals):
+                env[t.id] = v
+        else:
+            raise Unsup(norm(st)[:40])
+    try:
+        for st in blk[:blk.index(loop)]:
+            if isinstance(st, ast.Assign):
+                assign(st)
+        decided = []
+        for rnd in (1, 2, 3):
+            t = truth(loop.test)
+            if t is False:
+                decided.append((rnd, 'the loop test', loop.test))
+                break
+            go_on = True
+            for st in loop.body:
+                if isinstance(st, ast.If) and not st.orelse and len(st.body) == 1 and isinstance(st.body[0], ast.Break):
+                    tb = truth(st.test)
+                    if tb is True:
+                        decided.append((rnd + 1, 'the exit test', st.test))
+                        go_on = False
+                        break
+                elif isinstance(st, ast.Assign):
+                    assign(st)
+                elif isinstance(st, ast.Expr) and isinstance(st.value, ast.Constant):
+                    continue
+                else:
+                    raise Unsup(norm(st)[:40])
+            if not go_on:
+                break
+    except Unsup:
+        return
+    key = f'{ci.fq}: whether another round of double inversion is made depends on the role in every round'
+    early = [d for d in decided if d[0] == 2]
+    if early:
+        rnd, what, e = early[0]
+        rep.violation(key, ci.loc(e), f'with invert_role as I, {what} `{norm(e)[:50]}` compares two identical terms when it is evaluated the second time (a value computed from the OLD '
+                      f'role is carried into the new round): the loop makes one round whatever the role is, so only one pair of -of is removed - canonicalize_role(":ARG0-of-of-of-of") '
+                      f'gives ":ARG0-of-of", and canonicalising again changes it once more')
+    elif not decided:
+        rep.ok(key, ci.loc(loop), 'the round test compares different terms in rounds 1 to 3')
+
+
 def _r24m_rest(ctx: Ctx, rep: RuleReport, fi: FuncInfo, scope=None) -> RuleReport:
     colon = [n for n in walk_local(fi.node) if isinstance(n, ast.BinOp) and isinstance(n.op, ast.Add) and try_fold(n.left) == (True, ':')]
     rep.add(f'{fi.fq}: a missing leading colon is added', fi.loc(), 'ok' if colon else 'undecided')
@@ -967,6 +1077,7 @@ def _r24m_rest(ctx: Ctx, rep: RuleReport, fi: FuncInfo, scope=None) -> RuleRepor
             if isinstance(val, ast.Call) and norm(single_def(ctx, ci, val.func)) in ('self.invert_role', 'invert'):
                 continue
             other.append(n)
+    _r24m_rounds(ctx, rep, ci, scope)
     rep.add(f'{ci.fq}: the role is rewritten through invert_role only', ci.loc(other[0]) if other else ci.loc(),
             'undecided' if other else 'ok', f'`{norm(other[0])[:70]}` rewrites the role by other means' if other else '')
     return rep
@@ -1441,6 +1552,19 @@ def r135(ctx: Ctx) -> RuleReport:
                         consumers.append(f.fq)
     by_constant = len(consumers)
     rep.analysed['comparisons_with_CONCEPT_ROLE_in_transform_layout_graph'] = by_constant
+    # ... and none of them reads the concept role from the model instead: the "/" of the text always becomes the constant (_process_role)
+    n_attr = 0
+    for modname in ('penman.transform', 'penman.layout', 'penman.graph', 'penman.tree'):
+        m = ctx.repo.module(modname)
+        for f in m.all_funcs:
+            for n in walk_local(f.node):
+                if isinstance(n, ast.Attribute) and n.attr == 'concept_role' and isinstance(n.ctx, ast.Load) and by_constant:
+                    n_attr += 1
+                    rep.violation(f'{f.fq}: instance triples are recognised and built with the constant CONCEPT_ROLE', f.loc(n),
+                                  f'`{norm(n)}` takes the concept role from the model here, while {by_constant} comparisons in transform / layout / graph and the "/" of the text '
+                                  f'(_process_role) use the constant CONCEPT_ROLE: under Model(concept_role=":isa") a written concept "(a / alpha)" is not recognised as one, so '
+                                  f'every node gets an additional (a :isa None) triple')
+    rep.analysed['reads_of_model_concept_role_in_transform_layout_graph_tree'] = n_attr
     rf = ctx.repo.func(M, 'Model.reify')
     for r in _ret_stmts(rf):
         v = r.value
